@@ -81,6 +81,73 @@ pub struct Case {
     /// number of bootstrap calls whose index draws are pooled for the uniformity clause
     #[serde(default)]
     pub repeat: usize,
+    /// calls made earlier on the same thread (function, data length): history that must not leak
+    #[serde(default)]
+    pub pre: Vec<(Func, usize)>,
+}
+
+/// structure-only check of one call on plain distinct data (used for the earlier calls of a run)
+fn structural(func: Func, n: usize) -> Option<(&'static str, &'static str, String)> {
+    let data: Vec<f64> = (0..n).map(|i| i as f64 + 0.25).collect();
+    alea::sim::set_budget(100_000 + 64 * n as u64);
+    let r = match func {
+        Func::Bootstrap => match catch(|| bootstrap(&data, 3)) {
+            Err(m) => Some(("bootstrap_structure", "panic", m)),
+            Ok(out) => {
+                if out.len() != 3 || out.iter().any(|v| v.len() != n) {
+                    Some(("bootstrap_structure", "wrong_count", format!("earlier call: bootstrap of {} values x 3 returned {} vectors", n, out.len())))
+                } else if out.iter().flatten().any(|x| !(x.fract() == 0.25 && *x >= 0.0 && *x < n as f64)) {
+                    Some(("bootstrap_structure", "invented_element", "earlier call: element not in data".to_string()))
+                } else {
+                    None
+                }
+            }
+        },
+        Func::Jackknife => match catch(|| jackknife(&data)) {
+            Err(m) => Some(("jackknife_exact", "panic", m)),
+            Ok(out) => {
+                if out.len() != n || out.iter().enumerate().any(|(i, v)| v.len() != n - 1 || v.iter().any(|x| *x == data[i])) {
+                    Some(("jackknife_exact", "wrong_vector", "earlier call: not the leave-one-out vectors".to_string()))
+                } else {
+                    None
+                }
+            }
+        },
+        Func::Shuffle => match catch(|| shuffle(&data)) {
+            Err(m) => Some(("shuffle_multiset", "panic", m)),
+            Ok(out) => {
+                let mut b = out.clone();
+                b.sort_by(|x, y| x.total_cmp(y));
+                if b != data {
+                    Some(("shuffle_multiset", "not_a_permutation", format!("earlier call: shuffle of {} values is not a permutation", n)))
+                } else {
+                    None
+                }
+            }
+        },
+        Func::ShuffleTwo => {
+            let tags: Vec<f64> = (0..n).map(tag).collect();
+            match catch(|| shuffle_two(&data, &tags)) {
+                Err(m) => Some(("shuffle_two_paired", "panic", m)),
+                Ok((x, y)) => {
+                    let ok = x.len() == n && y.len() == n && {
+                        let mut seen = vec![false; n];
+                        (0..n).all(|j| {
+                            let i = y[j] - 1000.0;
+                            let good = i >= 0.0 && i < n as f64 && i.fract() == 0.0 && !seen[i as usize] && x[j] == data[i as usize];
+                            if good {
+                                seen[i as usize] = true;
+                            }
+                            good
+                        })
+                    };
+                    if ok { None } else { Some(("shuffle_two_paired", "unpaired", format!("earlier call: shuffle_two of {} values broke pairs or lost elements", n))) }
+                }
+            }
+        }
+    };
+    alea::sim::clear_budget();
+    r
 }
 
 pub fn fault_raw(kind: &str, r: &mut Sm) -> u64 {
@@ -198,6 +265,7 @@ impl Prop for C19 {
                 seeding: Seeding::gen(&mut r),
                 script: vec![],
                 repeat: 12,
+                pre: vec![],
             };
         }
         let _ = tier;
@@ -213,6 +281,7 @@ impl Prop for C19 {
                 seeding: Seeding::gen(&mut r),
                 script: vec![],
                 repeat: 40,
+                pre: vec![],
             };
         }
         let func = *r.pick(&[
@@ -250,13 +319,17 @@ impl Prop for C19 {
             if total > 0 {
                 let nf = 1 + r.below(3);
                 for _ in 0..nf {
-                    let kind = *r.pick(&["rng_zero", "rng_max", "rng_tiny", "rng_half", "rng_streak"]);
+                    let kind = *r.pick(&["rng_zero", "rng_max", "rng_tiny", "rng_half", "rng_streak", "rng_pair"]);
                     let at = match r.below(4) {
                         0 => 0,
                         1 => total - 1,
                         _ => r.below(total),
                     };
-                    if kind == "rng_streak" {
+                    if kind == "rng_pair" {
+                        let ex = [0u64, u64::MAX, 1 << 63, 1 << 11, 0xFFFF_FFFF, 0xFFFF_FFFF_0000_0000, 1];
+                        script.push(Forced { at, raw: Hx(*r.pick(&ex)), kind: kind.into() });
+                        script.push(Forced { at: at + 1, raw: Hx(*r.pick(&ex)), kind: kind.into() });
+                    } else if kind == "rng_streak" {
                         let raw = *r.pick(&[0u64, u64::MAX, 1, 1 << 63]);
                         let k = 2 + r.below(6);
                         for j in 0..k {
@@ -271,7 +344,16 @@ impl Prop for C19 {
         }
         // pooled calls so that every position expects >= ~600 hits (fault-free, distinct data)
         let repeat = if func == Func::Bootstrap && (mode == "distinct" || mode == "special_distinct") && script.is_empty() && r.chance(0.5) { ((600 + n_boot - 1) / n_boot).min(600) } else { 1 };
-        Case { func, data: fbs(&data), mode: mode.into(), n_boot, seeding, script, repeat }
+        // a third of the runs make 1..3 other calls first, on the same thread, with other lengths
+        let mut pre = vec![];
+        if r.chance(0.33) {
+            for _ in 0..(1 + r.below(3)) {
+                let f = *r.pick(&[Func::Bootstrap, Func::Jackknife, Func::Shuffle, Func::ShuffleTwo, Func::ShuffleTwo]);
+                let len = match r.below(3) { 0 => r.usize(1, 8), 1 => r.usize(9, 64), _ => r.usize(n + 1, 2 * n + 40) };
+                pre.push((f, len.min(3000)));
+            }
+        }
+        Case { func, data: fbs(&data), mode: mode.into(), n_boot, seeding, script, repeat, pre }
     }
 
     fn exec(case: &Case, st: &mut Stats) -> Option<Viol> {
@@ -283,7 +365,16 @@ impl Prop for C19 {
         h.s(&fname);
         h.fs(&data);
         case.seeding.apply();
-        let script: Vec<(u64, u64)> = case.script.iter().map(|f| (f.at, f.raw.0)).collect();
+        let mut pre_verdict: Option<Viol> = None;
+        for (pf, pl) in &case.pre {
+            st.inc("earlier_calls_on_thread");
+            if let Some((check, class, detail)) = structural(*pf, (*pl).max(1)) {
+                pre_verdict = Some(Viol::new(check, class, detail).k("func", format!("{:?}", pf)).k("len", "earlier_call"));
+                break;
+            }
+        }
+        let base = alea::sim::draws();
+        let script: Vec<(u64, u64)> = case.script.iter().map(|f| (base + f.at, f.raw.0)).collect();
         alea::sim::set_script(&script);
         let faulty = !script.is_empty();
         let expected_draws: u64 = match case.func {
@@ -305,9 +396,9 @@ impl Prop for C19 {
             )
         };
         let orig_bits: std::collections::HashSet<u64> = data.iter().map(|x| x.to_bits()).collect();
-        let mut verdict: Option<Viol> = None;
+        let mut verdict: Option<Viol> = pre_verdict;
 
-        match case.func {
+        match if verdict.is_some() { Func::Jackknife } else { case.func } {
             Func::Bootstrap => {
                 let distinct = orig_bits.len() == n;
                 let mut counts = vec![0u64; n];
@@ -319,6 +410,10 @@ impl Prop for C19 {
                 } else {
                     BTreeMap::new()
                 };
+                // order inside a resample: disjoint adjacent pairs and per-place (mod 16) means
+                let (mut pairs, mut desc) = (0u64, 0u64);
+                let mut place_sum = [0.0f64; 16];
+                let mut place_cnt = [0u64; 16];
                 let calls = if faulty { 1 } else { case.repeat.max(1) };
                 'calls: for _call in 0..calls {
                     alea::sim::set_budget(100_000 + 8 * expected_draws);
@@ -352,6 +447,15 @@ impl Prop for C19 {
                                     if distinct {
                                         let i = pos_of[&x.to_bits()];
                                         counts[i] += 1;
+                                        place_sum[j % 16] += i as f64;
+                                        place_cnt[j % 16] += 1;
+                                        if j % 2 == 1 {
+                                            let prev = pos_of[&v[j - 1].to_bits()];
+                                            pairs += 1;
+                                            if prev > i {
+                                                desc += 1;
+                                            }
+                                        }
                                         if joint_on {
                                             joint[j * n + i] += 1;
                                         }
@@ -388,6 +492,28 @@ impl Prop for C19 {
                         if let Some(k) = counts.iter().position(|c| *c == 0) {
                             verdict = mk("bootstrap_uniform", "position_never_drawn",
                                 format!("position {} of {} never drawn in {} draws", k, n, total));
+                        }
+                    }
+                    // the draws of one resample are exchangeable: among disjoint adjacent pairs the first is
+                    // larger with probability (1 - 1/n)/2, and every place (mod 16) has mean index (n-1)/2
+                    if verdict.is_none() && pairs >= 2000 {
+                        st.inc("stat.order_checked");
+                        let p = (1.0 - 1.0 / n as f64) / 2.0;
+                        let eps = ((8.0f64 / 1e-12).ln() / (2.0 * pairs as f64)).sqrt();
+                        let frac = desc as f64 / pairs as f64;
+                        if (frac - p).abs() > eps {
+                            verdict = mk("bootstrap_uniform", "order_within_resample",
+                                format!("in {} disjoint adjacent pairs of a resample the first drawn position is the larger one in {:.4} of them; independent uniform draws give {:.4} +- {:.4}", pairs, frac, p, eps));
+                        }
+                        for c in 0..16 {
+                            if verdict.is_none() && place_cnt[c] >= 2000 && n >= 2 {
+                                let mean = place_sum[c] / place_cnt[c] as f64 / (n - 1) as f64;
+                                let e = ((128.0f64 / 1e-12).ln() / (2.0 * place_cnt[c] as f64)).sqrt();
+                                if (mean - 0.5).abs() > e {
+                                    verdict = mk("bootstrap_uniform", "place_not_uniform",
+                                        format!("places congruent {} mod 16 of the resamples have mean relative position {:.4}; uniform draws give 0.5 +- {:.4}", c, mean, e));
+                                }
+                            }
                         }
                     }
                     // every output position draws every index equally often (small data): catches
@@ -442,6 +568,7 @@ impl Prop for C19 {
                     }
                 }
             }
+            Func::Jackknife if verdict.is_some() => {}
             Func::Jackknife => {
                 match catch(|| jackknife(&data)) {
                     Err(msg) => verdict = mk("jackknife_exact", "panic", msg),
@@ -581,6 +708,16 @@ impl Prop for C19 {
                 out.push(c);
             }
         }
+        if !case.pre.is_empty() {
+            let mut c = case.clone();
+            c.pre.clear();
+            out.push(c);
+            for i in 0..case.pre.len() {
+                let mut c = case.clone();
+                c.pre.remove(i);
+                out.push(c);
+            }
+        }
         for rp in [1usize, case.repeat / 2] {
             if rp >= 1 && rp < case.repeat {
                 let mut c = case.clone();
@@ -635,7 +772,7 @@ impl Prop for C19 {
             "len.len2-8", "len.len9+", "mode.distinct", "mode.repeated", "mode.special", "mode.special_distinct",
             "seeding.seed_clock", "seeding.seed_small", "seeding.seed_set", "fault.rng_zero",
             "fault.rng_max", "fault.rng_tiny", "fault.rng_half", "fault.rng_streak",
-            "stat.dkw_checked", "stat.coverage_checked", "stat.frequency_checked", "stat.joint_checked", "stat.chi_square_checked",
+            "stat.dkw_checked", "stat.coverage_checked", "stat.frequency_checked", "stat.joint_checked", "stat.chi_square_checked", "stat.order_checked", "earlier_calls_on_thread", "fault.rng_pair",
         ]
         .iter()
         .map(|s| s.to_string())
